@@ -321,3 +321,7 @@ func LockOrderCycle() bool { return false }
 func UFStr(name string, args ...interface{}) string {
 	return fmt.Sprint(append([]interface{}{name}, args...)...)
 }
+
+// UFU64 is an uninterpreted 64-bit function (symbolic side only: it stands for a real function whose
+// arithmetic is another check's subject, through Override; natively the real function runs).
+func UFU64(name string, args ...interface{}) uint64 { panic("zzverif.UFU64 is symbolic only") }
